@@ -817,6 +817,7 @@ def relabel_rules(c, swaps=None):
             ok = key in rew
             (ck.ok if ok else lambda r, w, t: ck.violate(r, w, t, "C17.relabel:%s:%s:key" % (f.pq, v["n"])))("C17.relabel", f.where, "%s: key %s of %s is the index of the entry that is rewritten (indexed entries before the insert: %s)" % (f.name, key, v["n"], sorted(x for x in rew if x)))
         ck.count("processed_sets", len(sets))
+        relabel_loops(ck, f, sets, loops)
         # rewrite pattern present in both branches of each has_* split
         pats = []
         for b in f.reach():
@@ -834,6 +835,51 @@ def relabel_rules(c, swaps=None):
                 continue  # cache-only rewrite (no linear-scan sibling needed: nothing to fix without the cache)
             ok = t_n >= 2 and f_n >= 2
             (ck.ok if ok else lambda r, w, t: ck.violate(r, w, t, "C17.relabel:%s:%s:siblings" % (f.pq, hname)))("C17.relabel", f.where, "%s: id1<->id2 rewrite tests present in both the %s branch (%d) and its linear-scan sibling (%d)" % (f.name, hname, t_n, f_n))
+
+
+def relabel_loops(ck, f, sets, loops):
+    """(a) a cache-guided loop over BOTH swapped handles that rewrites handles protects every rewrite by a processed set (an
+    entity incident to both handles - parallel edges included - must be relabelled once); (b) a loop that rewrites handles
+    (assignment / push_back of a handle under an id test) is never left early: every stored reference has to be visited"""
+    from .canon import Canon
+    import re
+    cn = Canon(f)
+    HANDLE = ("OpenVolumeMesh::VH", "OpenVolumeMesh::EH", "OpenVolumeMesh::HEH", "OpenVolumeMesh::FH", "OpenVolumeMesh::HFH", "OpenVolumeMesh::CH")
+
+    def rewrites(body):
+        out = []
+        for b, i, x in f.tops():
+            if b not in body:
+                continue
+            a = as_assign(x)
+            if a:
+                l = unwrap(f.resolve(a[0]))
+                t = (l.get("t") or l.get("rt") or "") if isinstance(l, dict) else ""
+                if any(h in t for h in HANDLE) and not t.endswith("bool"):
+                    out.append((b, i, x))
+            elif x.get("k") == "call" and x.get("pn", "").split("::")[-1] in ("set_from_vertex", "set_to_vertex", "push_back", "emplace_back", "replace") and b in f.reach():
+                rt = x.get("rt") or x.get("cc") or ""
+                if x.get("pn", "").split("::")[-1] in ("push_back", "emplace_back") and not any(h in rt for h in HANDLE):
+                    continue
+                out.append((b, i, x))
+        return out
+
+    idtest = lambda b_: any("/ 2)" in s_ and "==" in s_ for s_, p_, c_ in cn.facts(b_))
+    for hdr, body, backs in loops:
+        t = f.term(hdr)
+        cond = cn.s(t["cond"]) if t and t.get("cond") else ""
+        rw = [r_ for r_ in rewrites(body) if idtest(r_[0]) or r_[2].get("pn", "").split("::")[-1] in ("set_from_vertex", "set_to_vertex")]
+        if not rw:
+            continue
+        guided = any(a[0].startswith("has_") and a[1] is True for a in atoms_at(f, hdr)) or any(a[0].startswith("has_") and a[1] is True for r_ in rw for a in atoms_at(f, r_[0]))
+        if re.fullmatch(r"\(it\d+\(0\) < 2\w*\)", cond) and guided:
+            # (a) both-handles loop in a cache-guided branch
+            unprotected = [r_ for r_ in rw if not any((re.search(r"\.find\(.*\) == .*\.end\(\)\)$", s_) and p_ is True) or (re.search(r"\.find\(.*\) != .*\.end\(\)\)$", s_) and p_ is False) or (re.search(r"\.count\(.*\)", s_) and "== 0" in s_ and p_ is True) for s_, p_, c_ in cn.facts(r_[0]))]
+            (ck.ok if not unprotected else lambda r, w, t_: ck.violate(r, w, t_, "C17.relabel:%s:once" % f.pq))("C17.relabel", f.loc(t), "%s: every handle rewrite in the cache-guided loop over both swapped handles is behind a processed-set test (%d rewrite site(s), %d unprotected)" % (f.name, len(rw), len(unprotected)))
+        # (b) no early exit from a rewriting loop
+        inner = [h2 for h2, b2, k2 in loops if h2 != hdr and h2 in body]
+        early = sorted({bb for bb in body if bb != hdr and any(s_ is not None and s_ not in body for s_ in f.succ(bb))})
+        (ck.ok if not early else lambda r, w, t_: ck.violate(r, w, t_, "C17.relabel:%s:early:%s" % (f.pq, cond[:30])))("C17.relabel", f.loc(t) if t else f.where, "%s: the loop (%s) that rewrites handles visits every entry (no break/return)%s" % (f.name, cond[:40], "" if not early else " - left early from block(s) %s" % early))
 
 
 # ------------------------------------------------------------------------------------ C01: the values that are linked / unlinked
